@@ -474,7 +474,9 @@ var (
 
 // Given a time, determines the number of days in the month that time occurs in.
 func daysInMonth(t time.Time) int {
-	return time.Date(t.Year(), t.Month()+1, 0, 12, 0, 0, 0, t.Location()).Day()
+	// The length of a calendar month does not depend on the location. Computing it
+	// in the location goes wrong where local history skips the last day of a month.
+	return time.Date(t.Year(), t.Month()+1, 0, 12, 0, 0, 0, time.UTC).Day()
 }
 
 func clamp(n, min, max int) int {
